@@ -2,10 +2,12 @@ package main
 
 import (
 	"bytes"
+	"crypto/sha256"
 	"fmt"
 	"os"
 	"path/filepath"
 	"strings"
+	"sync"
 
 	"github.com/ulikunitz/xz"
 	"github.com/ulikunitz/xz/lzma"
@@ -45,6 +47,10 @@ func (s gscen) plain(seed uint64) []byte {
 		return []byte{}
 	case "big":
 		return gen.Data(r, "random", 300<<10)
+	case "truncated-aligned":
+		// compressible head, incompressible tail: near 32 KiB of output every further input
+		// byte yields about one more output byte, so a cut with an exact count exists
+		return append(gen.Data(r, "text", 30000), gen.Data(r, "random", 10000)...)
 	}
 	return gen.Data(r, "text", 3000)
 }
@@ -92,6 +98,9 @@ func (s gscen) setup(dir string, seed uint64) (cin, plain []byte, target string,
 		case "truncated":
 			cin = cin[:len(cin)-len(cin)/3]
 			valid = false
+		case "truncated-aligned":
+			cin = alignedCut(s.Format, cin)
+			valid = false
 		}
 		switch {
 		case strings.HasSuffix(s.Name, ext):
@@ -110,6 +119,42 @@ func (s gscen) setup(dir string, seed uint64) (cin, plain []byte, target string,
 		os.WriteFile(filepath.Join(dir, target), []byte("PRE-EXISTING TARGET CONTENT"), 0o600)
 	}
 	return
+}
+
+var alignedCuts sync.Map
+
+// alignedCut truncates a valid compressed file at a position from which the library's reader
+// delivers exactly 32768 bytes (the buffer size of io.Copy, which gxz uses) before it notices
+// the truncation; if there is no such position the file is cut where at least that much comes
+// out.  The library reader only selects the input here; the verdict is the directory oracle's.
+func alignedCut(format string, full []byte) []byte {
+	key := fmt.Sprintf("%s-%x", format, sha256.Sum256(full))
+	if v, ok := alignedCuts.Load(key); ok {
+		return full[:v.(int)]
+	}
+	delivered := func(cut int) int {
+		f := format
+		out, _, _, _ := openRead(f, full[:cut], 1<<16)
+		return len(out)
+	}
+	lo, hi := 14, len(full)-1
+	for lo < hi {
+		m := (lo + hi) / 2
+		if delivered(m) >= 32768 {
+			hi = m
+		} else {
+			lo = m + 1
+		}
+	}
+	cut := lo
+	for c := lo; c < len(full)-1 && c < lo+64; c++ {
+		if delivered(c) == 32768 {
+			cut = c
+			break
+		}
+	}
+	alignedCuts.Store(key, cut)
+	return full[:cut]
 }
 
 func (s gscen) args(dir string) []string {
@@ -172,6 +217,7 @@ func c10Scenarios(c *ev.Ctx) []gscen {
 			add(gscen{Decomp: true, Format: f, Name: "data." + f, Input: "big", Keep: true})
 			add(gscen{Decomp: true, Format: f, Name: "data." + f, Input: "corrupt"})
 			add(gscen{Decomp: true, Format: f, Name: "data." + f, Input: "truncated"})
+			add(gscen{Decomp: true, Format: f, Name: "data." + f, Input: "truncated-aligned"})
 			add(gscen{Decomp: true, Format: f, Name: "data.bin", Input: "small", Force: true})
 			add(gscen{Decomp: true, Format: f, Name: "data." + f, Input: "small", Existing: true, Force: true})
 		}
@@ -190,7 +236,7 @@ func c10Scenarios(c *ev.Ctx) []gscen {
 				for _, nm := range names {
 					inputs := []string{"small", "big", "empty"}
 					if dec {
-						inputs = append(inputs, "corrupt", "truncated")
+						inputs = append(inputs, "corrupt", "truncated", "truncated-aligned")
 					}
 					for _, in := range inputs {
 						for _, ex := range []bool{false, true} {
